@@ -1299,9 +1299,10 @@ static void MPSreadRanges(MPSInput& mps,  LPRowSetBase<Rational>& rset, const Na
             // EQ
             if((double(rset.lhs(idx)) > -double(infinity)) && (double(rset.rhs_w(idx)) < double(infinity)))
             {
-               assert(rset.lhs(idx) == rset.rhs(idx));
-
-               if(double(val) >= 0)
+               // a second range for the same row finds it ranged already: keep the first one
+               if(rset.lhs(idx) != rset.rhs(idx))
+                  mps.entryIgnored("Range", mps.field1(), "row", mps.field2());
+               else if(double(val) >= 0)
                   rset.rhs_w(idx) += val;
                else
                   rset.lhs_w(idx) += val;
@@ -1342,9 +1343,10 @@ static void MPSreadRanges(MPSInput& mps,  LPRowSetBase<Rational>& rset, const Na
                // EQ
                if((double(rset.lhs(idx)) > -double(infinity)) && (double(rset.rhs(idx)) <  double(infinity)))
                {
-                  assert(rset.lhs(idx) == rset.rhs(idx));
-
-                  if(double(val) >= 0)
+                  // a second range for the same row finds it ranged already: keep the first one
+                  if(rset.lhs(idx) != rset.rhs(idx))
+                     mps.entryIgnored("Range", mps.field1(), "row", mps.field4());
+                  else if(double(val) >= 0)
                      rset.rhs_w(idx) += val;
                   else
                      rset.lhs_w(idx) += val;
